@@ -31,6 +31,7 @@ CONSTANTS
  Aead = TRUE
  CheckIdent = TRUE
  RelayOnce = FALSE
+ CandsGuard = TRUE
  SuspendJoin = FALSE
  JoinCacheFirst = TRUE
  AutoTimers = TRUE
